@@ -146,7 +146,13 @@ fn check_pool(prop: Prop, tier: Tier, seed: u64) -> i32 {
     };
     let known = known_for::<pool::PoolScn>(prop);
     let res = batch::run_batch::<pool::PoolScn>(&cfg, &known);
-    let saturation = pool_saturation(seed, tier);
+    // (Only on a clean batch: on a broken tree nearly every run fails, and
+    // every failing run leaves its threads parked.)
+    let saturation = if matches!(res.end, BatchEnd::Clean) {
+        pool_saturation(seed, tier)
+    } else {
+        json!("skipped: the batch did not end clean")
+    };
     let meta = EvidenceMeta {
         prop,
         tier,
@@ -175,7 +181,7 @@ fn pool_saturation(seed: u64, tier: Tier) -> serde_json::Value {
     let mut out = serde_json::Map::new();
     for n in [1usize, 2] {
         let scn = pool::PoolScn {
-            broadcasts: vec![pool::Bcast { n, api: pool::Api::Broadcast, panics: Vec::new() }],
+            broadcasts: vec![pool::Bcast { n, api: pool::Api::Broadcast, panics: Vec::new(), helper_caller: false }],
             spurious_parks: Vec::new(),
         };
         let mut seen = std::collections::HashSet::new();
@@ -186,6 +192,9 @@ fn pool_saturation(seed: u64, tier: Tier) -> serde_json::Value {
             let run_seed = dsim::rng::mix(&[seed, 0x5A7, n as u64, i]);
             let mut rng = dsim::rng::Rng::new(run_seed);
             let strategy = batch::strategy_for(&mut rng, &scn);
+            if dsim::sim::leaked_threads() > 2_000 {
+                break;
+            }
             let (r, _) = batch::one_run(&scn, run_seed, strategy);
             if r.failure.is_none() {
                 seen.insert(r.sync_sig);
